@@ -5,4 +5,5 @@ T0All == 0..135          \* 0..3D for D = 45 ticks (3 s at 15 ticks/s)
 T0Quick == {0, 1, 14, 15, 29, 30, 31, 44, 45, 46, 60, 75, 89, 90, 134, 135}
 T0Small == 0..36         \* 0..3D for D = 12 ticks (3 s at 4 ticks/s)
 T0One == 0..9           \* 0..3D for D = 3 ticks (1 tick/s)
+T0Small12 == {0, 1, 3, 4, 7, 8, 9, 12, 13, 23, 24, 35, 36}
 ====
